@@ -543,9 +543,9 @@ func runManifest(c ManifestCase, r *pbt.Rec) error {
 
 type PercCase struct {
 	Lock struct {
-		Primary                  HB
-		Ts, TTL, MinCommitTs     uint64
-		Kind                     uint8
+		Primary              HB
+		Ts, TTL, MinCommitTs uint64
+		Kind                 uint8
 	}
 	Write struct {
 		Kind       uint8
@@ -593,10 +593,10 @@ type RaftCase struct {
 	Entries []RaftEnt
 	HS      struct{ Term, Vote, Commit uint64 }
 	Snap    struct {
-		Data                                            HB
-		Index, Term                                     uint64
+		Data                                           HB
+		Index, Term                                    uint64
 		Voters, Learners, VotersOutgoing, LearnersNext []uint64
-		AutoLeave                                       bool
+		AutoLeave                                      bool
 	}
 	M Mut
 }
@@ -670,21 +670,21 @@ type MutT struct {
 	Assert     bool
 }
 type ReqT struct {
-	CmdType    int32
-	Which      int // 0 = no payload, 1..7 = the oneof arms in declaration order
-	Key        HB
-	Keys       []HB
-	U          [5]uint64
-	Limit      uint32
-	B1, B2     bool
-	Muts       []MutT
+	CmdType int32
+	Which   int // 0 = no payload, 1..7 = the oneof arms in declaration order
+	Key     HB
+	Keys    []HB
+	U       [5]uint64
+	Limit   uint32
+	B1, B2  bool
+	Muts    []MutT
 }
 type CmdCase struct {
-	HasHeader, HasEpoch                     bool
-	Region, Peer, ReqID, ConfVer, Version   uint64
-	ReadQuorum                              bool
-	Reqs                                    []ReqT
-	M                                       Mut
+	HasHeader, HasEpoch                   bool
+	Region, Peer, ReqID, ConfVer, Version uint64
+	ReadQuorum                            bool
+	Reqs                                  []ReqT
+	M                                     Mut
 }
 
 func (c CmdCase) build() *pb.RaftCmdRequest {
@@ -830,14 +830,14 @@ func TestCheck(t *testing.T) {
 			"a strict prefix of an entry record must be rejected (the record is length-delimited and checksummed); for the other codecs a truncation may legitimately decode (optional trailing fields)",
 		},
 	}
-	pbt.Add(s, &pbt.Spec[EntryCase]{Name: "entry", Gen: genEntry, Run: runEntry, Quick: 12000, Thorough: 150000, Shards: 8})
-	pbt.Add(s, &pbt.Spec[ValueCase]{Name: "value", Gen: genValue, Run: runValue, Quick: 12000, Thorough: 150000, Shards: 4})
-	pbt.Add(s, &pbt.Spec[OrderCase]{Name: "order", Gen: genOrder, Run: runOrder, Quick: 30000, Thorough: 400000, Shards: 8})
-	pbt.Add(s, &pbt.Spec[ManifestCase]{Name: "manifest", Gen: genManifest, Run: runManifest, Quick: 20000, Thorough: 250000, Shards: 8})
-	pbt.Add(s, &pbt.Spec[PercCase]{Name: "percolator", Gen: genPerc, Run: runPerc, Quick: 16000, Thorough: 200000, Shards: 8})
-	pbt.Add(s, &pbt.Spec[RaftCase]{Name: "raftlog", Gen: genRaft, Run: runRaft, Quick: 10000, Thorough: 120000, Shards: 8})
-	pbt.Add(s, &pbt.Spec[CmdCase]{Name: "command", Gen: genCmd, Run: runCmd, Quick: 10000, Thorough: 120000, Shards: 8})
-	pbt.Add(s, &pbt.Spec[BytesCase]{Name: "bytes", Gen: genBytes, Run: runBytes, Static: staticBytes, Quick: 80000, Thorough: 1000000, Shards: 8})
+	pbt.Add(s, &pbt.Spec[EntryCase]{Name: "entry", Gen: genEntry, Run: runEntry, Quick: 36000, Thorough: 400000, Shards: 8})
+	pbt.Add(s, &pbt.Spec[ValueCase]{Name: "value", Gen: genValue, Run: runValue, Quick: 36000, Thorough: 400000, Shards: 4})
+	pbt.Add(s, &pbt.Spec[OrderCase]{Name: "order", Gen: genOrder, Run: runOrder, Quick: 90000, Thorough: 1000000, Shards: 8})
+	pbt.Add(s, &pbt.Spec[ManifestCase]{Name: "manifest", Gen: genManifest, Run: runManifest, Quick: 60000, Thorough: 600000, Shards: 8})
+	pbt.Add(s, &pbt.Spec[PercCase]{Name: "percolator", Gen: genPerc, Run: runPerc, Quick: 48000, Thorough: 500000, Shards: 8})
+	pbt.Add(s, &pbt.Spec[RaftCase]{Name: "raftlog", Gen: genRaft, Run: runRaft, Quick: 30000, Thorough: 300000, Shards: 8})
+	pbt.Add(s, &pbt.Spec[CmdCase]{Name: "command", Gen: genCmd, Run: runCmd, Quick: 30000, Thorough: 300000, Shards: 8})
+	pbt.Add(s, &pbt.Spec[BytesCase]{Name: "bytes", Gen: genBytes, Run: runBytes, Static: staticBytes, Quick: 240000, Thorough: 2500000, Shards: 8})
 	// "replay" is the spec of the committed replay files; its small generator (decoders that have no
 	// open-finding screen, so runRaw == runBytes) only exists so that a VERIF_CASES override finds work to do.
 	pbt.Add(s, &pbt.Spec[BytesCase]{Name: "replay", Run: runRaw, Quick: 200, Thorough: 2000, Gen: func(t *rapid.T) BytesCase {
